@@ -16,6 +16,12 @@ func (c *Ctx) handoverRule(rule string, producer *ssa.Function) {
 	if pl == nil || producer == nil {
 		return
 	}
+	// when the goroutine delegates parse-and-enqueue to a per-line helper, the hand-over is checked in that helper:
+	// every path from the parser call (accepted line) to a return of the helper passes the blocking send
+	if pf := c.producerFrame(); pf != nil && pf.Member == producer && pf.Via != nil {
+		c.handoverInHelper(rule, pf)
+		return
+	}
 	var reads []ssa.Instruction
 	var parses []*ssa.Call
 	funcInstrs(producer, func(in ssa.Instruction) {
@@ -130,4 +136,101 @@ func (c *Ctx) handoverRule(rule string, producer *ssa.Function) {
 		}
 		r.Add(rule, fmt.Sprintf("handover:%s#%d", c.FuncKey(producer), i+1), c.InstrPos(pc), c.FuncKey(producer), "an accepted line is handed over (blocking) before the next read", ok, why)
 	}
+}
+
+// producerFrame locates the receive side of the inbound queue: the member
+// goroutine that reads the socket, and the frame that parses and enqueues each
+// line - the goroutine's own body, or the single unexported helper it calls
+// for every line (called from nowhere else, never used as a value).
+type producerFrameT struct {
+	Member *ssa.Function
+	Frame  *ssa.Function
+	Via    *ssa.Call
+	Send   ChanOp
+}
+
+func (c *Ctx) producerFrame() *producerFrameT {
+	a := c.A
+	sendIn := func(fn *ssa.Function) (ChanOp, bool) {
+		var got ChanOp
+		ok := false
+		for _, op := range ChanOps(fn) {
+			if op.Kind == "send" && c.ChanMayBe(op.Chan, a.In) {
+				got, ok = op, true
+			}
+		}
+		return got, ok
+	}
+	for _, m := range a.Members {
+		if op, ok := sendIn(m); ok {
+			return &producerFrameT{Member: m, Frame: m, Send: op}
+		}
+	}
+	for _, m := range a.Members {
+		for _, cs := range CallSites(m) {
+			call, ok := cs.(*ssa.Call)
+			if !ok || call.Call.IsInvoke() {
+				continue
+			}
+			h := call.Call.StaticCallee()
+			if h == nil || h.Package() != c.Client || !c.InModuleFn(h) || (h.Object() != nil && h.Object().Exported()) || addrTaken(h) {
+				continue
+			}
+			if sites := c.staticCallers(h); len(sites) != 1 {
+				continue
+			}
+			if op, ok := sendIn(h); ok {
+				return &producerFrameT{Member: m, Frame: h, Via: call, Send: op}
+			}
+		}
+	}
+	return nil
+}
+
+func (c *Ctx) handoverInHelper(rule string, pf *producerFrameT) {
+	r, a := c.R, c.A
+	pl := c.Func(c.Client, "ParseLine")
+	h := pf.Frame
+	n := 0
+	funcInstrs(h, func(in ssa.Instruction) {
+		pc, ok := in.(*ssa.Call)
+		if !ok || pc.Call.StaticCallee() != pl {
+			return
+		}
+		n++
+		stop := func(x ssa.Instruction) bool {
+			s, isS := x.(*ssa.Send)
+			if !isS || !c.ChanMayBe(s.Chan, a.In) {
+				return false
+			}
+			os := c.Origins(s.X)
+			return len(os) == 1 && os[0] == ssa.Value(pc)
+		}
+		skip := func(from, to *ssa.BasicBlock) bool {
+			cd, ok := edgeCond(from, to)
+			if !ok {
+				return false
+			}
+			cd = unwrapNot(cd)
+			bo, ok := cd.V.(*ssa.BinOp)
+			if !ok || (bo.Op != token.EQL && bo.Op != token.NEQ) {
+				return false
+			}
+			var other ssa.Value
+			if isNilConst(bo.Y) {
+				other = bo.X
+			} else if isNilConst(bo.X) {
+				other = bo.Y
+			}
+			return other == ssa.Value(pc) && (bo.Op == token.EQL) == cd.True
+		}
+		okH, why := true, "every path of the per-line helper from the parser call (accepted line) to its return passes a blocking send of that line"
+		for x := range ReachFromFiltered(pc, false, stop, skip) {
+			if isReturn(x) {
+				okH, why = false, "the helper can return at "+c.InstrPos(x)+" with the accepted line not sent"
+			}
+		}
+		r.Add(rule, fmt.Sprintf("handover:%s#%d", c.FuncKey(h), n), c.InstrPos(pc), c.FuncKey(h), "an accepted line is handed over (blocking) before the next read", okH, why)
+	})
+	r.Floor(rule, "parser calls in the receive goroutine (hand-over)", n, 1)
 }
